@@ -87,7 +87,7 @@ def runOpWrite (op : String) (args : List String) : String :=
         | some s => firstFail [
             okIf (strToNat? s.sid == sid.toNat?) "sentence-id",
             okIf (lines.all rawAttrsOK) "unescaped-character-in-attribute",
-            okIf (sameTree s.tree (carryTiger t)) "decoded-tree-differs"]
+            okIf (sameTree s.tree (carryTigerRoot t)) "decoded-tree-differs"]
   | _, _ => unknownOp
 
 end Driver
